@@ -350,6 +350,12 @@ def run_nc(case):
                     ds[name] = arr
                     arrs.append((name, spec, arr))
                 ds.attrs.update(_copy.deepcopy(step["attrs"]))
+                # the appended Dataset's own axes carry metadata too: dimensions that the file already has keep what is there, new ones bring theirs
+                app_ax = {}
+                for d_ in ds.dims:
+                    ds.axes[d_].attrs.update({"units": "appended-%s" % d_, "extra_": 1})
+                    if d_ not in m.dims:
+                        app_ax[d_] = {"units": "appended-%s" % d_, "extra_": 1}
                 snap = core.snapshot_dataset(ds)
                 what += " Dataset(%s).write_nc(mode=%r)" % (core.jsonable([[n, s_["dims"], s_["labels"], s_["vk"]] for n, s_ in step["vars"]]), step["wmode"])
                 lib(lambda: ds.write_nc(path, mode=step["wmode"]), what=what, sig=sig)
@@ -357,6 +363,7 @@ def run_nc(case):
                 for name, spec, arr in arrs:
                     m.add(name, spec, arr)
                 m.attrs.update(dict(step["attrs"]))
+                m.axattrs.update(app_ax)
                 cl.add("nc:dataset-append")
                 nontrivial = True
             elif k in ("da_write_w", "da_write_a", "da_write_a+", "open_set"):
